@@ -388,6 +388,18 @@ class CommandSpec(object):
         """dict(shape=term, dtype=term|None, miss=c->Bool, value=c->Real|None, fuzzy=bool)"""
         raise NotImplementedError
 
+    def admissible(self, case):
+        """concrete-side admissibility (bounded checks / replay): the property's own input restriction.
+        Commands that use whole-array statistics are claimed for arrays with at least two distinct valid values."""
+        if not self.uses_stats:
+            return True
+        for inp in case["inputs"].values():
+            if inp.get("kind") == "single":
+                vals = set(v for v, m in zip(inp["data"], inp["mask"]) if not m)
+                if len(vals) < 2:
+                    return False
+        return True
+
     def arrays_read(self, x):
         """names of the Result inputs the command must read (C01 touches-all-refs); default: all required"""
         return None
